@@ -48,7 +48,7 @@ DoCall == /\ stage = "model" /\ st' = st
                 THEN stage' = "simulated" /\ \E j \in 0..st.nsub : v' = Unit(st.nsub + 1, j)
                 ELSE stage' = "called" /\ v' = RScaleSeq(RSub("1", nc), v)
 DoSubsample == /\ stage = "called" /\ stage' = "subsampled" /\ st' = st
-               /\ v' = ContractAxis(<<st.nseq + 1>>, v, 1, SubsampleMat(st.cov, st.nseq, st.nsub, st.F))
+               /\ v' = ContractAxis(<<st.nseq + 1>>, v, 1, SubsampleMat(EnoughCovered(st.cov, st.nseq, st.nsub), st.nseq, st.nsub, st.F))
 DoMiscall == /\ stage = "subsampled" /\ stage' = "corrected" /\ st' = st
              /\ v' = ContractAxis(<<st.nsub + 1>>, v, 1, CallingErrorMatrix(st.cov, st.nsub, st.F))
 Next == ChooseF \/ PickSite \/ DoCall \/ DoSubsample \/ DoMiscall
@@ -95,6 +95,8 @@ L_CallErr == stage = "params" =>
     /\ \A x \in 0..st.nsub : Mean(M[x + 1]) = RInt(x)                 \* miscalls are symmetric
     /\ M[1] = Unit(st.nsub + 1, 0) /\ M[st.nsub + 1] = Unit(st.nsub + 1, st.nsub)   \* no heterozygote, no miscall
     /\ RNonNeg(HetErr(st.cov)) /\ RLeq(HetErr(st.cov), "1")
+    \* the miscall probability refers to covered heterozygotes: it does not depend on P(depth = 0)
+    /\ HetErr([d \in 1..4 |-> IF d = 1 THEN "0" ELSE RDiv(st.cov[d], Covered(st.cov))]) = HetErr(st.cov)
 \* first principles: distribution of the number of alt reads of one individual, convolved over individuals
 AltReads(cov, g) == IF g = 0 THEN Unit(Len(cov), 0)
                     ELSE IF g = 2 THEN cov
@@ -135,24 +137,32 @@ L_StageTotals ==
         /\ stage = "simulated" => RSum(v) = "1"
 L_Corrected == stage = "corrected" =>
     v = Apply(UnitSpec(st.nseq + 1, st.x), <<st.cov>>, <<st.nseq>>, <<st.nsub>>, <<st.F>>).d
-\* two populations with the same design: the N-dimensional composition factorises over the axes and the
-\* "enough individuals covered" factor enters once per population
+\* two populations with the same design: the N-dimensional composition factorises over the axes; every axis
+\* carries the survival factor lam = probability that enough individuals are covered in both populations
 L_TwoPops == (stage = "params" /\ st.nseq <= 4) =>
-    LET sh == <<st.nseq + 1, st.nseq + 1>>
-        nc == NoCall(st.cov, st.nseq, st.F)
-        one(x) == ContractAxis(<<st.nsub + 1>>,
-                               ContractAxis(<<st.nseq + 1>>, Unit(st.nseq + 1, x), 1, SubsampleMat(st.cov, st.nseq, st.nsub, st.F)),
-                               1, CallingErrorMatrix(st.cov, st.nsub, st.F))
-    IN  \A x1, x2 \in 0..st.nseq :
-           LET s == [sh |-> sh, d |-> [k \in 1..Size(sh) |-> IF Unflat(sh, k) = <<x1, x2>> THEN "1" ELSE "0"],
-                     m |-> [k \in 1..Size(sh) |-> FALSE], f |-> FALSE, ids |-> <<>>]
-               a == Apply(s, <<st.cov, st.cov>>, <<st.nseq, st.nseq>>, <<st.nsub, st.nsub>>, <<st.F, st.F>>)
-               r1 == one(x1)
-               r2 == one(x2)
-               keep == RSub("1", RMul(nc[x1 + 1], nc[x2 + 1]))
-           IN  /\ a.sh = <<st.nsub + 1, st.nsub + 1>>
-               /\ \A k \in 1..Size(a.sh) : LET ix == Unflat(a.sh, k) IN a.d[k] = RMul(keep, RMul(r1[ix[1] + 1], r2[ix[2] + 1]))
-               /\ RLeq(RSum(a.d), "1")
+    LET sh  == <<st.nseq + 1, st.nseq + 1>>
+        sh2 == <<st.nsub + 1, st.nsub + 1>>
+        nc  == NoCall(st.cov, st.nseq, st.F)
+        lam == SurvivalAll(<<st.cov, st.cov>>, <<st.nseq, st.nseq>>, <<st.nsub, st.nsub>>)
+        pm  == SubsampleMat(lam, st.nseq, st.nsub, st.F)
+        ce  == CallingErrorMatrix(st.cov, st.nsub, st.F)
+        ncnd == Tab([k \in 1..Size(sh) |-> LET ix == Unflat(sh, k) IN RMul(nc[ix[1] + 1], nc[ix[2] + 1])])
+        nosim == [k \in 1..Size(sh) |-> FALSE]
+        \* one population, one site class: subsample then miscall
+        one == Tab([x1 \in 1..(st.nseq + 1) |-> ContractAxis(<<st.nsub + 1>>, ContractAxis(<<st.nseq + 1>>, Unit(st.nseq + 1, x1 - 1), 1, pm), 1, ce)])
+        expect(x1, x2) == Tab([k \in 1..Size(sh2) |-> LET ix == Unflat(sh2, k) IN
+                                  RMul(RSub("1", RMul(nc[x1 + 1], nc[x2 + 1])), RMul(one[x1 + 1][ix[1] + 1], one[x2 + 1][ix[2] + 1]))])
+        expT == Tab([j \in 1..Size(sh) |-> LET jx == Unflat(sh, j) IN expect(jx[1], jx[2])])
+        gen == [sh |-> sh, d |-> [k \in 1..Size(sh) |-> RInt(2 * k + 1)], m |-> [k \in 1..Size(sh) |-> FALSE], f |-> FALSE, ids |-> <<>>]
+        ag  == Apply(gen, <<st.cov, st.cov>>, <<st.nseq, st.nseq>>, <<st.nsub, st.nsub>>, <<st.F, st.F>>)
+    IN  /\ \A x1, x2 \in 0..st.nseq :
+              LET a == Compose(sh, [k \in 1..Size(sh) |-> IF Unflat(sh, k) = <<x1, x2>> THEN "1" ELSE "0"], ncnd, nosim, <<pm, pm>>, <<ce, ce>>, <<>>)
+              IN  /\ a.sh = sh2 /\ a.d = expT[Flat(sh, <<x1, x2>>)] /\ RLeq(RSum(a.d), "1")
+                  /\ RSum(a.d) = RMul(RSub("1", RMul(nc[x1 + 1], nc[x2 + 1])), RSq(lam))      \* sites are lost, never created
+        \* the packaged operator on a generic model: the same linear map
+        /\ ag.sh = sh2
+        /\ ag.d = Tab([k \in 1..Size(sh2) |-> RSum([j \in 1..Size(sh) |-> RMul(gen.d[j], expT[j][k])])])
+        /\ RLeq(RSum(ag.d), RSum(gen.d))
 \* ---- deep-coverage limit is the plain projection of SpectrumOps ----
 L_DeepIsProjection == stage = "design" => \A x \in 0..st.nseq :
     DeepLimit(UnitSpec(st.nseq + 1, x), <<st.nseq>>, <<st.nsub>>, <<"0">>).d = Project(UnitSpec(st.nseq + 1, x), <<st.nsub>>).d
